@@ -78,29 +78,24 @@ class LT:
         value : int
             Lifetime in milliseconds.
         """
-        if value < 50:
-            multiplier = 0
-            base = LTbase.FIFTY_MILLISECONDS
-        elif value < 100:
-            multiplier = 1
-            base = LTbase.FIFTY_MILLISECONDS
-        elif value < 500:
-            multiplier = int(value / 50 % 64)
-            base = LTbase.FIFTY_MILLISECONDS
-        elif value < 1000:
-            multiplier = 0
-            base = LTbase.ONE_SECOND
-        elif value < 10000:
-            multiplier = int(value / 1000 % 64)
-            base = LTbase.ONE_SECOND
-        elif value < 100000:
-            multiplier = int(value / 10000 % 64)
-            base = LTbase.TEN_SECONDS
-        elif value < 1000000:
-            multiplier = int(value / 100000 % 64)
-            base = LTbase.ONE_HUNDRED_SECONDS
-        else:
-            multiplier = 0
+        multiplier = 0
+        base = LTbase.FIFTY_MILLISECONDS
+        if 50 <= value < 1000000:
+            # Largest representable lifetime (multiplier 0..63 times base) not
+            # exceeding the requested value; the coarser base wins ties.
+            best = 0
+            for candidate_base, unit in (
+                (LTbase.FIFTY_MILLISECONDS, 50),
+                (LTbase.ONE_SECOND, 1000),
+                (LTbase.TEN_SECONDS, 10000),
+                (LTbase.ONE_HUNDRED_SECONDS, 100000),
+            ):
+                candidate = min(int(value // unit), 63)
+                if candidate > 0 and candidate * unit >= best:
+                    multiplier = candidate
+                    base = candidate_base
+                    best = candidate * unit
+        elif value >= 1000000:
             base = LTbase.ONE_HUNDRED_SECONDS
 
         return LT(multiplier=multiplier, base=base)
